@@ -83,7 +83,7 @@ def cache_documents(prj: Project):
     return out
 
 
-def read_cached(prj: Project, text):
+def read_cached(prj: Project, text, want_object: bool = False):
     """_read_cached_report on a cache file with this text (None: file absent) -> 'report' | 'none' | 'raises <name>'"""
     fi = prj.func("codelimit.commands.scan:_read_cached_report")
     vfs = VFS({"/r": ([".codelimit_cache"], []), "/r/.codelimit_cache": ([], ["codelimit.json"] if text is not None else [])}, "/r")
@@ -102,7 +102,53 @@ def read_cached(prj: Project, text):
         r = it.call(fi, [PathV("/r/.codelimit_cache/codelimit.json")], {})
     except PyRaise as e:
         return f"raises {e.name}"
+    if want_object:
+        return r
     return "none" if r is None else "report"
+
+
+def entries_of(prj: Project, report):
+    """{path: (checksum, language, loc, [(name, value, start, end)])} of the files a (cached) report offers for reuse"""
+    it = MiniInterp(prj, max_steps=200000, max_depth=40)
+    cb = report.fields.get("codebase") if isinstance(report, Sym) else None
+    files = cb.fields.get("files") if isinstance(cb, Sym) else None
+    if not isinstance(files, dict):
+        raise Unknown("the report read from the cache has no codebase.files dictionary")
+    out = {}
+    for key, e in files.items():
+        def get(name):
+            m = e.cls.find_method(name) if e.cls else None
+            if m is not None and not m.is_property():
+                return it.call(prj.func(m.qual), [], {}, self_obj=e)
+            return it.getattr(e, name, next(iter(prj.funcs.values())), None)
+        ms = []
+        for x in get("measurements"):
+            f = x.fields
+            loc = lambda l: (l.fields.get("line"), l.fields.get("column")) if isinstance(l, Sym) else l
+            ms.append((f.get("unit_name"), f.get("value"), loc(f.get("start")), loc(f.get("end"))))
+        out[key] = (get("checksum"), e.fields.get("language"), e.fields.get("loc"), ms)
+    return out
+
+
+def key_paths(doc, prefix=()):
+    """every key of every dictionary of a JSON document, as a path"""
+    if isinstance(doc, dict):
+        for k, v in doc.items():
+            yield prefix + (k,)
+            yield from key_paths(v, prefix + (k,))
+    elif isinstance(doc, list):
+        for i, v in enumerate(doc):
+            yield from key_paths(v, prefix + (i,))
+
+
+def without(doc, path):
+    import copy
+    d = copy.deepcopy(doc)
+    cur = d
+    for k in path[:-1]:
+        cur = cur[k]
+    del cur[path[-1]]
+    return d
 
 
 def read_report(prj: Project, text):
